@@ -137,6 +137,19 @@ partial def pGTree (cfg : Cfg Float) (idx : List Cal.Stamp) : P (GTree Float) :=
       | _ => some <$> pGTree cfg idx)
     let p : ProgFI Float := { gate := gateOf k ⟨f1, f2, f3⟩ idx, ws, notional }
     return (.node (progRunFI cfg p) kids)
+  if tag == "T" then
+    -- WeighTarget node: gate, per-row target weights
+    let flow ← opt float
+    let gate ← pGate idx
+    let rows ← list (opt (list (do let i ← nat; let x ← float; pure (i, x))))
+    let kids ← list (do
+      match (← next) with
+      | "N" => pure none
+      | _ => some <$> pGTree cfg idx)
+    let p : ProgT Float := { gate, rows }
+    match flow with
+    | none => return (.node (progRunT cfg p) kids)
+    | some a => return (.node (withFlow a (progRunT cfg p)) kids)
   let flow ← opt float
   let gate ← pGate idx
   let ucols ← list nat
